@@ -152,7 +152,11 @@ def run(tier, seed, ck=None):
         ok = len(r.paths) == 1 and r.paths[0]['end'] == 'return'
         p = r.paths[0]
         ok = ok and p['obs']['err'].get('label') == 'err:nil or empty scalar' and p['obs']['R']['f'] == p['obs']['R0']['f'] and not p['writes']
-        ck.ground('C13.cselnil%d' % w, 'nil operand: errParamNilScalar returned and receiver untouched', ok)
+        if not ck.ground('C13.cselnil%d' % w, 'nil operand: errParamNilScalar returned and receiver untouched', ok) and not ck.violations:
+            path = ck.save_replay({'property': 'C13', 'cases': [{'kind': 'cselect-nil'}]})
+            ok2, out = core.go_test(path)
+            if not ok2 and 'MISMATCH' in out:
+                ck.violation('cselect-nil', 'CSelect with a nil operand: %s' % [l.strip() for l in out.splitlines() if 'MISMATCH' in l][:1], path)
     if own:
         # the verdicts above are about single calls from the initial package state: histories (observe, scribble on returned slices, mutate, observe) must not change them
         from props import hidden
